@@ -181,7 +181,7 @@ class Repo:
                 cur = Module(rel, cur.src, cur.tree, cur.kind)
                 self.modules[rel] = cur
                 self.equivalent.setdefault(rel, []).extend(spliced)
-            applied = rename.normalise_module(cur, rmod)
+            applied = rename.normalise_module(cur, rmod, sigs)
             if applied:
                 self.renames[rel] = applied
         except Exception as e:       # never let normalisation break a check
